@@ -15,16 +15,18 @@ from ..core import Engine, RunResult
 from .. import docgen
 
 CONFIG_KINDS = {"construct", "enable", "disable", "opt_item", "opt_attr", "set", "configure", "render_rule", "use",
-                "bad_config", "ruler", "set_from", "construct_from"}
+                "bad_config", "ruler", "set_from", "construct_from", "hook", "highlight"}
 # ops whose effect on instance j depends on the configuration of ANOTHER instance at that moment; the expectation
 # world then replays the configuration ops of every instance (never the parses)
-CROSS_CONFIG_KINDS = {"set_from", "construct_from"}
+CROSS_CONFIG_KINDS = {"set_from", "construct_from", "hook"}
 STATEFUL_DOCS = [
     "[x]\n\n[x]: /first 'T'\n", "[x]: /second\n\n[x] [y]\n\n[y]: /why\n", "`` a ` b ``` c `` d ```\n", "``` `` ` x\n",
     "> " * 30 + "deep\n", "- " * 25 + "deep\n", "*" * 40 + "a" + "*" * 37 + "\n", "[" * 30 + "a" + "]" * 30 + "(/u)\n",
     "**a *b __c ~~d~~ e__ f* g**\n", "[foo]: /def-in-doc\n\n[foo] ![foo]\n", "![a [foo] b][foo]\n\n[foo]: /img\n",
     "\"quotes\" -- ... (c)\n", "a\\\nb  \nc\n", "<div>\n\n*x*\n\n</div>\n", "| a | b |\n|---|:-:|\n| `c\\|d` | e |\n",
     "~~s~~ <http://x.y> &amp; &#35;\n", "1. a\n\n   b\n2. c\n\n- d\n- e\n",
+    "```py\nRAISE\n```\n", "```py a=1\nfine\n```\n\n~~~\nplain\n~~~\n", "`RAISE` x\n", "[a](/l1) ![b](/l2 't') <http://l3.x/>\n",
+    "x @! y\n", "```\nok\n```\n\n```js\nRAISE\n```\n\n```\nafter\n```\n",
 ]
 OPT_VALUES = {"html": [True, False], "typographer": [True, False], "breaks": [True, False], "xhtmlOut": [True, False],
               "langPrefix": ["language-", "l-"], "quotes": ["“”‘’", "«»‹›"], "maxNesting": [2, 5, 20, 100],
@@ -38,8 +40,20 @@ RENDER_KEYS = ["text", "code_inline", "hr", "softbreak", "fence", "verif_new_typ
 def _marker_render_rule(marker):
     def rule(self_, tokens, idx, options, env):
         from markdown_it.common.utils import escapeHtml
+        if "RAISE" in tokens[idx].content:
+            raise ValueError(f"render rule {marker} refuses this token")     # deterministic function of its input
         return f"<{marker}>" + escapeHtml(tokens[idx].content)
     return rule
+
+
+def _highlighter(mode):
+    def hl(content, lang, attrs):
+        if "RAISE" in content:
+            raise ValueError("highlighter refuses this block")               # deterministic function of its input
+        if mode == 0:
+            return ""
+        return f"<pre class=hl{mode}>{lang}|{attrs}|{len(content)}</pre>"
+    return hl
 
 
 def _plugin(md, tag, where):
@@ -47,6 +61,8 @@ def _plugin(md, tag, where):
         def rule(state, silent):
             if state.src[state.pos] != "@":
                 return False
+            if state.src[state.pos:state.pos + 2] == "@!":
+                raise ValueError(f"plugin {tag} refuses '@!'")                 # deterministic function of its input
             if not silent:
                 t = state.push("text", "", 0)
                 t.content = f"<{tag}>"
@@ -174,18 +190,32 @@ def gen(rng: random.Random, tier: str) -> dict:
                 ops.append(["set_from", j, i])
             else:
                 ops.append(["construct_from", j, _gen_preset_ref(rng, n_user), i])
-        elif r < 0.985:
+        elif r < 0.972:
+            # a user hook on instance j that uses instance i (possibly j itself) while j is parsing
+            i = rng.randrange(n_inst)
+            ops.append(["hook", j, rng.choice(["normalizeLink", "validateLink", "normalizeLinkText"]), i,
+                        rng.choice(["[q](/hooked 'h') `c`", "*e* [z][foo] <http://in.hook/>", "x"])])
+        elif r < 0.98:
+            ops.append(["highlight", j, rng.randrange(3)])
+        elif r < 0.99:
             # the caller scribbles over what an earlier call returned (tokens, their attrs/meta/map/children, the env):
             # results belong to the caller, so this must not reach any later call
             ops.append(["mutate", j, rng.randrange(4)])
         else:
             ops.append(["bad", j, rng.choice(["src_int", "src_none", "env_list", "env_str", "preset", "rule", "empty_cfg",
                                               "inline_src_bytes"])])
+    # where user callbacks that can refuse their input are installed, give them something to refuse (and to accept)
+    armed = False
+    for op in ops:
+        if op[0] in ("highlight", "render_rule", "use"):
+            armed = True
+        elif armed and op[0] == "call" and "Inline" not in op[2] and rng.random() < 0.35:
+            op[3] = op[3] + rng.choice(["\n```py\nRAISE\n```\n", "\n```py a=1\nfine\n```\n", "\nx @! y `RAISE`\n", "\n`RAISE`\n"])
     probes = []
     seen_docs = [op for op in ops if op[0] == "call"]
     for _ in range(rng.randint(1, 4)):
         m = rng.choice(["render", "render", "parse", "renderInline"])
-        d = docgen.inline_source(rng) if "Inline" in m else (_gen_doc(rng) + rng.choice(["", "x @ y\n\n@@\n"]))
+        d = docgen.inline_source(rng) if "Inline" in m else (_gen_doc(rng) + rng.choice(["", "", "x @ y\n\n@@\n", "```py\nfine\n```\n"]))
         j = rng.randrange(n_inst)
         if seen_docs and rng.random() < 0.4:
             # the same text again (memo-style state is keyed by text/position), with its definitions dropped, kept or
@@ -215,6 +245,7 @@ class _World:
         self.user_options = copy.deepcopy(rec["user_options"])
         self.inst: dict[int, object] = {}
         self.last: dict[int, tuple] = {}      # instance -> (value, env) of its most recent successful call
+        self.hook_depth = 0
         mk = collections.UserDict if rec.get("env_type") == "userdict" else dict
         self.envs = [mk() for _ in range(rec["n_env"])]
 
@@ -243,7 +274,22 @@ class _World:
                 self.inst[j] = MarkdownIt(self.preset(op[2]), self.inst[op[3]].options)
                 return None
             md = self.inst[j]
-            if kind == "set_from":
+            if kind == "hook":
+                world, other, doc = self, op[3], op[4]
+                prev = getattr(md, op[2])
+
+                def hook(url, _prev=prev):
+                    if world.hook_depth == 0:                # the nested document has links too: no recursion
+                        world.hook_depth += 1
+                        try:
+                            world.inst[other].renderInline(doc)   # whatever instance currently lives under that index
+                        finally:
+                            world.hook_depth -= 1
+                    return _prev(url)
+                setattr(md, op[2], hook)
+            elif kind == "highlight":
+                md.options["highlight"] = _highlighter(op[2])
+            elif kind == "set_from":
                 md.set(self.inst[op[2]].options)
             elif kind in ("enable", "disable"):
                 getattr(md, kind)(list(op[2]))
@@ -431,6 +477,10 @@ def execute(rec: dict, res: RunResult) -> None:
                     res.count("shared_user_preset")
             elif kind == "render_rule":
                 res.count("render_rule_added")
+            elif kind == "hook" and e is None:
+                res.count("link_hook_using_an_instance_installed")
+            elif kind == "highlight":
+                res.count("raising_highlighter_installed")
             elif kind in CROSS_CONFIG_KINDS and e is None:
                 res.count("options_object_handed_to_other_instance")
             touched = {j}
@@ -457,6 +507,8 @@ def execute(rec: dict, res: RunResult) -> None:
             if keep:
                 w.last[j] = (keep[0], env)
             res.events.append([k, "call", j, method, out])
+            if out[0] == "exc" and out[1] == "ValueError" and "refuses" in out[2]:
+                res.count("user_callback_raised_in_history")
             state_bearing += 1
             if "]:" in doc:
                 res.count("definitions_parsed_in_history")
@@ -523,7 +575,8 @@ class C12(Engine):
     expected_probes = ["ref_use_in_probe_without_env", "other_instance_reconfigured", "shared_user_preset",
                        "option_route_ctor", "option_route_item", "option_route_attr", "failed_documented_call",
                        "render_rule_added", "definitions_parsed_in_history", "caller_mutated_returned_objects",
-                       "options_object_handed_to_other_instance"]
+                       "options_object_handed_to_other_instance", "link_hook_using_an_instance_installed",
+                       "raising_highlighter_installed", "user_callback_raised_in_history"]
 
     def budget(self, tier):
         if tier == "quick":
@@ -582,7 +635,7 @@ def _valid(ops, probes):
             if op[3] not in built:
                 return False
             built.add(op[1])
-        elif op[1] not in built or (op[0] == "set_from" and op[2] not in built):
+        elif op[1] not in built or (op[0] == "set_from" and op[2] not in built) or (op[0] == "hook" and op[3] not in built):
             return False
     return all(p[0] in built for p in probes)
 
